@@ -753,3 +753,116 @@ fn c10_skip_take_chars_2() {
 fn c10_skip_take_chars_3() {
     skip_take_chars_model::<3>()
 }
+
+// ------------------------------------------------------------------------------------------
+// C07: how each of the 256 byte values is written inside a JSON string
+// ------------------------------------------------------------------------------------------
+/// recording `fmt::Write`
+struct WBuf {
+    b: [u8; 8],
+    n: usize,
+}
+impl core::fmt::Write for WBuf {
+    fn write_str(&mut self, s: &str) -> core::fmt::Result {
+        let bytes = s.as_bytes();
+        let mut i = 0;
+        while i < bytes.len() {
+            assert!(self.n < 8);
+            self.b[self.n] = bytes[i];
+            self.n += 1;
+            i += 1;
+        }
+        Ok(())
+    }
+}
+fn hex(d: u8) -> u8 {
+    if d < 10 { b'0' + d } else { b'a' + d - 10 }
+}
+/// RFC 8259 section 7: `"` and `\` and the control characters U+0000..U+001F must be escaped,
+/// with the two-character forms `\" \\ \b \f \n \r \t` and `\u00XX` otherwise; every other
+/// character may be written as itself.  jaq additionally writes DEL as `\u007f`, and in byte
+/// strings (XJON) every byte outside printable ASCII as `\xXX`.
+fn escape_spec(c: u8, text: bool, out: &mut [u8; 8]) -> usize {
+    let two = |out: &mut [u8; 8], x: u8| {
+        out[0] = b'\\';
+        out[1] = x;
+        2
+    };
+    match c {
+        0x08 => two(out, b'b'),
+        0x0c => two(out, b'f'),
+        b'\t' => two(out, b't'),
+        b'\n' => two(out, b'n'),
+        b'\r' => two(out, b'r'),
+        b'\\' => two(out, b'\\'),
+        b'"' => two(out, b'"'),
+        0x00..=0x1f | 0x7f..=0xff => {
+            if text {
+                out[..4].copy_from_slice(b"\\u00");
+                out[4] = hex(c >> 4);
+                out[5] = hex(c & 15);
+                6
+            } else {
+                out[..2].copy_from_slice(b"\\x");
+                out[2] = hex(c >> 4);
+                out[3] = hex(c & 15);
+                4
+            }
+        }
+        c => {
+            out[0] = c;
+            1
+        }
+    }
+}
+/// The real `write_byte!` with the fall-back expression its two callers pass (`write_utf8!`:
+/// `\u{:04x}`; `write_bytes!`: `\x{:02x}` - transcribed from those macros) writes exactly the
+/// escape the spec gives, for one concrete byte.
+fn write_byte_case(c: u8, text: bool) {
+    use core::fmt::Write;
+    let mut buf = WBuf { b: [0; 8], n: 0 };
+    let w = &mut buf;
+    let r = if text {
+        let last = c;
+        crate::write_byte!(w, c, write!(w, "\\u{last:04x}"))
+    } else {
+        crate::write_byte!(w, c, write!(w, "\\x{c:02x}"))
+    };
+    assert!(r.is_ok());
+    let mut want = [0u8; 8];
+    let n = escape_spec(c, text, &mut want);
+    assert!(buf.n == n);
+    let mut i = 0;
+    while i < n {
+        assert!(buf.b[i] == want[i]);
+        i += 1;
+    }
+}
+/// 16 consecutive byte values per harness (core::fmt runs concretely; about 5 s per byte)
+fn write_byte_block(block: u8) {
+    let mut k = 0u8;
+    while k < 16 {
+        let c = block * 16 + k;
+        // `write_utf8!` only passes the bytes it calls special to `write_byte!`
+        if matches!(c, 0x00..=0x1F | b'\\' | b'"' | 0x7F) {
+            write_byte_case(c, true);
+        }
+        write_byte_case(c, false);
+        k += 1;
+    }
+}
+macro_rules! write_byte_blocks {
+    ($($name:ident: $b:expr;)*) => {$(
+        #[kani::proof]
+        #[kani::unwind(18)]
+        fn $name() {
+            write_byte_block($b)
+        }
+    )*};
+}
+write_byte_blocks! {
+    c07_write_byte_0: 0; c07_write_byte_1: 1; c07_write_byte_2: 2; c07_write_byte_3: 3;
+    c07_write_byte_4: 4; c07_write_byte_5: 5; c07_write_byte_6: 6; c07_write_byte_7: 7;
+    c07_write_byte_8: 8; c07_write_byte_9: 9; c07_write_byte_a: 10; c07_write_byte_b: 11;
+    c07_write_byte_c: 12; c07_write_byte_d: 13; c07_write_byte_e: 14; c07_write_byte_f: 15;
+}
